@@ -311,6 +311,10 @@ def prop(case):
                 raise Violation("linear_path", "linear_path(%s) = %s, model chain %s\n%s" % (sname, names, [c[0] for c in ch], text))
         elif len(names) > 1:
             raise Violation("linear_path", "linear_path(%s) = %s but the segment is in no chain\n%s" % (sname, names, text))
+    if any("_" in c[0] for ch in chains for c in ch):
+        # a chain member whose name looks like a merged name: once it is gone a merged segment may take its
+        # name, and the comparison by names below cannot tell the two apart
+        return {"nt": False, "member_named_like_merged": True}
     # ---- merge
     comps_before = M.ModelDoc.from_doc({"version": doc["version"], "lines": doc["lines"]}).components()
     V = doc["version"]
@@ -517,6 +521,27 @@ def build_chain_graph(r):
         lines.append(["#", [" bystander"], []])
     if gen.chance(r, 0.3):
         lines.insert(0, ["H", [], [["VN", "Z", "1.0"]]])
+    if gen.fair(r, 0.15):
+        # a bystander segment that already carries the name a merged chain would be given by default (a_b next
+        # to the chain a, b), or a name one character away from a chain member (s1 and s1L)
+        chains = Graph({"version": "gfa1", "lines": lines}).chains()
+        members = set(c[0] for ch in chains for c in ch)
+        victims = [x for x in names if x not in members]
+        if chains and victims:
+            run = [c[0] for c in gen.choice(r, chains)]
+            if gen.chance(r, 0.5):
+                run = list(reversed(run))
+            new = "_".join(run) if gen.chance(r, 0.75) else run[0] + gen.choice(r, ["L", "R", "_", "2"])
+            if new not in names:
+                old = gen.choice(r, victims)
+                for l in lines:
+                    if l[0] == "S" and l[1][0] == old:
+                        l[1][0] = new
+                    elif l[0] in "LC":
+                        if l[1][0] == old:
+                            l[1][0] = new
+                        if l[1][2] == old:
+                            l[1][2] = new
     return {"version": "gfa1", "lines": lines}
 
 
